@@ -64,11 +64,43 @@ impl Property for C11 {
         vec![
             "the reference is the batch path itself (FileExecutor over a simulated file holding exactly the first k lines), so defects common to both paths are invisible here".to_owned(),
             "a run in which incremental and batch side fail with the same error/panic on the same prefix counts as agreement (totality is C09's business)".to_owned(),
-            "bounds: <=12 lines; statements from the generated family without LIMIT".to_owned(),
+            "bounds: <=12 lines (<=90 in the large regime) with every prefix compared; 4 300-9 500 lines in the size regime with eight seeded prefixes and the end compared; statements from the generated family without LIMIT".to_owned(),
         ]
     }
 
     fn generate(&self, rng: &mut Rng, thorough: bool) -> J {
+        if rng.chance(if thorough { 3 } else { 1 }, 6000) {
+            // size regime: thousands of values in one group under aggregates that keep every value (PERCENTILE,
+            // COUNT(DISTINCT)); the every-prefix oracle is quadratic, so the batch comparison is made at a few seeded
+            // prefix lengths beyond 4096 / 8192 values and at the end
+            let n = rng.range(4_300, 9_500) as usize;
+            let groups = *rng.pick(&[1usize, 1, 2]);
+            let lines: Vec<Vec<u8>> = (0..n).map(|_| format!("E k={};n={};r=0.25;", ["a", "b"][rng.below(groups)], rng.below(1000)).into_bytes()).collect();
+            let mut sparse: Vec<usize> = (0..8).map(|_| rng.range(4_097, n as i64) as usize).collect();
+            sparse.push(n);
+            sparse.sort();
+            sparse.dedup();
+            return json!({
+                "prop": "C11",
+                "joined": J::Null,
+                "defs": format!("{} {}", sqlgen::table_defs(&sqlgen::plain_table_cfg()), sqlgen::JOINED_DEFS),
+                "stmt": *rng.pick(&[
+                    "SELECT PERCENTILE(n, 0.5) AS p, COUNT(*) AS c FROM t",
+                    "SELECT k, PERCENTILE(n, 0.95) AS p, MAX(n) AS m FROM t GROUP BY k",
+                    "SELECT k, COUNT(DISTINCT n) AS d, PERCENTILE(n, 0.25) AS q FROM t GROUP BY k",
+                ]),
+                "aggregate": true,
+                "lines": enc_list(&lines),
+                "sparse": sparse,
+                "format": "text",
+                "follow": false,
+                "init_cut": 0,
+                "poll_ms": 0,
+                "cuts": [],
+                "steps": [],
+                "read_mode": "bulk",
+            });
+        }
         let cfg = if rng.chance(1, 2) { sqlgen::plain_table_cfg() } else { sqlgen::gen_table_cfg(rng) };
         let mut lc = sqlgen::gen_line_cfg(rng);
         lc.n_range = *rng.pick(&[2, 3, 10]);
@@ -217,6 +249,19 @@ impl Property for C11 {
     fn shrink(&self, case: &J) -> Vec<J> {
         use crate::shrink::*;
         let mut out = Vec::new();
+        if let Some(sp) = case.get("sparse").and_then(|x| x.as_array()) {
+            // size regime: thousands of lines; the only reduction tried is cutting the input at one of the compared prefixes
+            let lines = jbytes_list(case, "lines");
+            for k in sp.iter().filter_map(|x| x.as_u64()).map(|x| x as usize) {
+                if k < lines.len() {
+                    let mut c = case.clone();
+                    c["lines"] = enc_list(&lines[..k].to_vec());
+                    c["sparse"] = json!([k]);
+                    out.push(c);
+                }
+            }
+            return out;
+        }
         bytes_array_field(case, "lines", &mut out);
         bytes_field(case, "joined", &mut out);
         bool_field(case, "follow", false, &mut out);
@@ -262,9 +307,15 @@ impl Property for C11 {
         };
 
         // --- batch over every prefix
-        let mut batch: Vec<(String, Vec<String>)> = Vec::new(); // index k-1
+        let mut batch: Vec<Option<(String, Vec<String>)>> = Vec::new(); // index k-1; None = prefix not compared (sparse regime)
         let upto = l1_failed_at.unwrap_or(n).min(n);
+        let sparse: Option<Vec<usize>> = case.get("sparse").and_then(|x| x.as_array()).map(|a| a.iter().filter_map(|x| x.as_u64()).map(|x| x as usize).collect());
+        out.probe("more_than_4096_values_in_one_group_sparse_prefixes", sparse.is_some() as u64);
         for k in 1..=upto {
+            if sparse.as_ref().map(|s| !s.contains(&k)).unwrap_or(false) {
+                batch.push(None);
+                continue;
+            }
             let file = gen::join_lines(&lines[..k], true);
             let mut b = batch_spec(&defs, &stmt, &[file], joined.as_deref());
             b.format = format.clone();
@@ -272,13 +323,29 @@ impl Property for C11 {
             if !usable(&mut out, "c11", &r, &features) {
                 return out;
             }
-            batch.push((status_label(&r.status), records(&r)));
+            batch.push(Some((status_label(&r.status), records(&r))));
         }
 
         let mut screen: Vec<String> = Vec::new(); // the table currently shown (aggregate) / all records so far (select)
         let mut outputs = 0;
         for k in 1..=upto {
-            let (bstatus, brecs) = &batch[k - 1];
+            if batch[k - 1].is_none() {
+                if Some(k) == l1_failed_at {
+                    break;
+                }
+                let e = &l1.engine[k - 1];
+                if e.has_row {
+                    outputs += 1;
+                    let printed: Vec<String> = e.printed.iter().filter(|p| !p.is_empty()).cloned().collect();
+                    if aggregate {
+                        screen = printed;
+                    } else {
+                        screen.extend(printed);
+                    }
+                }
+                continue;
+            }
+            let (bstatus, brecs) = batch[k - 1].as_ref().unwrap();
             if Some(k) == l1_failed_at {
                 // incremental side failed on line k: the batch run over k lines must fail the same way
                 if *bstatus != status_label(&l1.status) {
@@ -327,13 +394,13 @@ impl Property for C11 {
         out.probe("large_more_than_16_lines", (n > 16) as u64);
         out.probe("large_more_than_32_lines", (n > 32) as u64);
         out.probe("signed_zero_values", lines.iter().any(|l| l.windows(4).any(|w| w == b"-0.0")) as u64);
-        out.probe("large_table_more_than_16_rows", batch.iter().any(|(_, r)| r.len() > 16) as u64);
+        out.probe("large_table_more_than_16_rows", batch.iter().flatten().any(|(_, r)| r.len() > 16) as u64);
         out.probe("wrapped_aggregate", (stmt.contains(") * 2") || stmt.contains(") + 1") || stmt.contains(") - 1")) as u64);
 
         // --- L2: the real FollowFileExecutor under the writer/poll schedule
         out.probe("join_statement", joined.is_some() as u64);
         out.probe("aggregate_over_join", (joined.is_some() && aggregate) as u64);
-        if jbool(case, "follow") && l1_failed_at.is_none() && joined.is_none() {
+        if jbool(case, "follow") && l1_failed_at.is_none() && joined.is_none() && sparse.is_none() {
             let content = gen::join_lines(&lines, true);
             let mut f = WorldSpec::new(&defs, &stmt, Mode::FollowExec { head: true });
             let init_cut = jusize(case, "init_cut", 0).min(content.len());
@@ -360,7 +427,7 @@ impl Property for C11 {
                 for (i, t) in tables.iter().enumerate() {
                     let mut found = None;
                     for kk in k.max(1)..=n {
-                        if batch[kk - 1].1 == *t {
+                        if batch[kk - 1].as_ref().unwrap().1 == *t {
                             found = Some(kk);
                             break;
                         }
@@ -378,15 +445,15 @@ impl Property for C11 {
                     }
                 }
                 let last = tables.last().cloned().unwrap_or_default();
-                if last != batch[n - 1].1 {
-                    out.violate("c11.final_table_differs", format!("{}: the last table on screen is {} but the batch table over all {} lines is {}", stmt, show(&last), n, show(&batch[n - 1].1)), features.clone());
+                if last != batch[n - 1].as_ref().unwrap().1 {
+                    out.violate("c11.final_table_differs", format!("{}: the last table on screen is {} but the batch table over all {} lines is {}", stmt, show(&last), n, show(&batch[n - 1].as_ref().unwrap().1)), features.clone());
                     return out;
                 }
                 out.probe("l2_refreshes", tables.len() as u64);
             } else {
                 let recs: Vec<String> = String::from_utf8_lossy(&res.stdout).split('\n').filter(|l| !l.is_empty()).map(|l| l.to_owned()).collect();
-                if recs != batch[n - 1].1 {
-                    out.violate("c11.rows_differ", format!("{}: follow mode printed {} but the batch run prints {}", stmt, show(&recs), show(&batch[n - 1].1)), features.clone());
+                if recs != batch[n - 1].as_ref().unwrap().1 {
+                    out.violate("c11.rows_differ", format!("{}: follow mode printed {} but the batch run prints {}", stmt, show(&recs), show(&batch[n - 1].as_ref().unwrap().1)), features.clone());
                     return out;
                 }
             }
